@@ -86,7 +86,9 @@ func (p *prog) leafAt(site string) string {
 		return ""
 	}
 	if p.Leaf.Pat != "" {
-		return fmt.Sprintf("leaf %s { type %s { pattern %q; } }", site, p.Ref, p.Leaf.Pat)
+		// a sibling of the same type with a pattern of its own: restrictions added at one
+		// use of a typedef must not show at another
+		return fmt.Sprintf("leaf %s { type %s { pattern %q; } } leaf sib_%s { type %s { pattern \"sibling-pat\"; } }", site, p.Ref, p.Leaf.Pat, site, p.Ref)
 	}
 	return fmt.Sprintf("leaf %s { type %s; }", site, p.Ref)
 }
@@ -219,6 +221,18 @@ func exec(kind byte, body []byte) *core.Verdict {
 	if want.Kind == "string" {
 		if g, w := strings.Join(y.Pattern, "|"), strings.Join(want.Pats, "|"); g != w {
 			return fail("patterns-differ", "specification %q, library %q", w, g)
+		}
+	}
+	if want.Kind == "string" && c.Prog.Leaf.Pat != "" {
+		if sib := find(yang.ToEntry(ms.Modules["a"]), "sib_"+c.Prog.Site); sib != nil && sib.Type != nil {
+			w := append([]string{}, want.Pats[:len(want.Pats)-1]...)
+			if want.Pats[len(want.Pats)-1] != c.Prog.Leaf.Pat { // the leaf's pattern was a duplicate of an inherited one
+				w = append([]string{}, want.Pats...)
+			}
+			w = append(w, "sibling-pat")
+			if g := strings.Join(sib.Type.Pattern, "|"); g != strings.Join(w, "|") {
+				return fail("patterns-differ-at-sibling", "sibling leaf of the same type: specification %q, library %q", strings.Join(w, "|"), g)
+			}
 		}
 	}
 	if len(c.Prog.Tds) == 3 && c.Prog.Tds[0].Slot != c.Prog.Tds[1].Slot && want.Units != "" && len(want.Pats) == 3 {
